@@ -200,7 +200,7 @@ func run(r *lib.Run) {
 		r.Inconclusive("real binary not built: " + err.Error())
 	}
 	rng := r.Rng("c18")
-	reps := r.N(1, 3)
+	reps := r.N(1, 5)
 	org := newOrigin()
 	defer org.close()
 
@@ -220,7 +220,7 @@ func run(r *lib.Run) {
 
 	limits := append([]int64{}, stdLimits...)
 	if !r.Quick {
-		for i := 0; i < 6; i++ {
+		for i := 0; i < 10; i++ {
 			limits = append(limits, randomLimit(rng))
 		}
 	}
@@ -281,18 +281,24 @@ func run(r *lib.Run) {
 
 	// ---------------- Part 3: max_proxy_blob_size, in-process with lib.FakeProxy ----------------
 	for i, P := range limits {
-		sc := storageCfgs[(i+seed+1)%4]
-		cases := readCases(rng, P, reps, r.Quick, seed)
-		jobs = append(jobs, job{"proxy-inproc", fmt.Sprintf("proxy-inproc P=%d %s/%s", P, sc.storage, sc.impl), P, func() {
-			fp := lib.NewFakeProxy(sc.storage == "zstd")
-			t, err := inprocTarget(lib.ServerOpts{Storage: sc.storage, ZstdImpl: sc.impl, MaxProxyBlobSize: P, Proxy: fp, NoDepsCheck: i%6 == 1}, org)
-			if err != nil {
-				r.Inconclusive("in-process server start (proxy part): " + err.Error())
-				return
-			}
-			defer t.close()
-			runReads(r, &proxyEnv{t: t, b: fakeBackend{fp}}, cases)
-		}})
+		cfgs := []storageCfg{storageCfgs[(i+seed+1)%4]}
+		if !r.Quick {
+			cfgs = append(cfgs, storageCfgs[(i+seed+2)%4])
+		}
+		for ci, sc := range cfgs {
+			cases := readCases(rng, P, reps, r.Quick, seed)
+			depsOff := i%6 == 1 && ci == 0
+			jobs = append(jobs, job{"proxy-inproc", fmt.Sprintf("proxy-inproc P=%d %s/%s", P, sc.storage, sc.impl), P, func() {
+				fp := lib.NewFakeProxy(sc.storage == "zstd")
+				t, err := inprocTarget(lib.ServerOpts{Storage: sc.storage, ZstdImpl: sc.impl, MaxProxyBlobSize: P, Proxy: fp, NoDepsCheck: depsOff}, org)
+				if err != nil {
+					r.Inconclusive("in-process server start (proxy part): " + err.Error())
+					return
+				}
+				defer t.close()
+				runReads(r, &proxyEnv{t: t, b: fakeBackend{fp}}, cases)
+			}})
+		}
 	}
 
 	// ---------------- Part 4: max_proxy_blob_size through the real binary + HTTP backend ----------------
